@@ -8,7 +8,7 @@
     [fixed_code c]: the configuration is the code after commit 80a110a (the
     guard exists) and ThreadAllocInfo::current() is Some on every thread. *)
 From Coq Require Import List Arith Bool NArith.
-From DivanV Require Import Model.Round Proofs.RoundBase Proofs.RoundInv Proofs.RoundTerm Proofs.RoundAlloc Proofs.RoundEx Proofs.RoundMain Proofs.RoundMon.
+From DivanV Require Import Generated.Consts2 Model.Round Proofs.RoundBase Proofs.RoundInv Proofs.RoundTerm Proofs.RoundAlloc Proofs.RoundEx Proofs.RoundMain Proofs.RoundMon.
 Import ListNotations.
 
 (** The invariant evaluated by the exhaustive explorer ([inv_b], DESIGN.md
@@ -166,3 +166,10 @@ Theorem C08_hyps_clean_run :
                 map result (ths st) = [Some [Alloc 5%N]; Some [Alloc 105%N]].
 Proof. exact clean_run. Qed.
 Print Assumptions C08_hyps_clean_run.
+
+(** Obligation on the generated constant (tools/extract_consts2.py re-reads the
+    source on every run): [SampleBarrier::WAIT_COUNT] is the 3 waits per sample
+    of the model's per-sample program and guard. *)
+Theorem C08_wait_count_const : barrier_wait_count = 3%N.
+Proof. reflexivity. Qed.
+Print Assumptions C08_wait_count_const.
